@@ -328,13 +328,10 @@ UPGRADER:
 			return ErrInvalidHTTPStatus
 		case stateStatus:
 			switch c {
-			case ' ':
-				if p.status == "" {
-					p.status = string(data[start:i])
-				}
 			case '\r':
 				if p.status == "" {
-					p.status = string(data[start:i])
+					// the reason phrase may contain blanks, e.g. "Not Found".
+					p.status = strings.TrimRight(string(data[start:i]), " \t")
 				}
 				p.Processor.OnStatus(p, p.statusCode, p.status)
 				p.statusCode = 0
